@@ -2,6 +2,7 @@ import B6.Model.Simplify
 import B6.Model.VM
 import B6.Spec.Query
 import B6.Lemmas.Simplify
+import B6.Props.C21
 /-!
 C22 — simplification never changes a program's result.
 
@@ -17,6 +18,8 @@ argument tree afterwards, and `Evaluate` of both programs).
   function position in the result was in function position in the input or names a global function.
   The unrepaired code violated both halves (`{a -> add a a}` ↦ `add a`;
   `{f -> pair (({-> f}) 5 6) 1}` ↦ `{f -> pair (f 5 6) 1}`): corpus witnesses of the harness.
+* `evalpair_reduces_to_interp` (proved): on C21's fragment `Expr.regSafe` comparing the two VM outcomes is
+  comparing the two interpreter meanings (the tie between the run's oracle and the specification).
 * `simplify_preserves_statement`: the semantic half (the simplified program has the interpreter's
   meaning of the original) for programs in which no lambda parameter is named like a global function.
   Not proved in general (it needs observational equivalence of function values: `{a -> f a}` and `f`
@@ -170,6 +173,26 @@ def simplify_preserves_statement : Prop :=
     ∀ (fuel : Nat), interp fuel e ≠ .error .fuel →
       ∃ fuel', (interp fuel' s).map (fun v => (Simplify.canonVal v).obs)
              = (interp fuel e).map (fun v => (Simplify.canonVal v).obs)
+
+/-- **evalpair_reduces_to_interp.** What the correspondence run compares is `Evaluate e` against
+`Evaluate (Simplify e)`, both on the VM.  For two programs in C21's fragment `Expr.regSafe` (with the
+validated code layout; both are evaluated by the drivers on every program) that comparison is the
+comparison of the interpreter's meanings — C21 `vm_lambda_partial` on both sides.  Outside the
+fragment a VM difference between programs the language identifies is C21's finding (class
+`vm-closure-registers` of the C22 driver = `!regSafe` of either tree). -/
+theorem evalpair_reduces_to_interp (fuel : Nat) (e s : Expr) (he : e.regSafe = true) (hs : s.regSafe = true)
+    (hle : VM.layoutOK e = true) (hls : VM.layoutOK s = true) :
+    ((VM.run fuel e).map Val.obs = (VM.run fuel s).map Val.obs) ↔
+      ((interp fuel e).map Val.obs = (interp fuel s).map Val.obs) := by
+  rw [B6.Props.C21.vm_lambda_partial fuel e he hle, B6.Props.C21.vm_lambda_partial fuel s hs hls]
+
+/-- non-vacuity: an η-shaped lambda and its simplification are both in the fragment -/
+example : simplify (c (.sym "call1") [.lam ["a"] (c (.sym "first") [.sym "a"]), c (.sym "pair") [i 1, i 2]])
+      = some (c (.sym "call1") [.sym "first", c (.sym "pair") [i 1, i 2]]) ∧
+    Expr.regSafe (c (.sym "call1") [.lam ["a"] (c (.sym "first") [.sym "a"]), c (.sym "pair") [i 1, i 2]]) = true ∧
+    Expr.regSafe (c (.sym "call1") [.sym "first", c (.sym "pair") [i 1, i 2]]) = true ∧
+    VM.layoutOK (c (.sym "call1") [.lam ["a"] (c (.sym "first") [.sym "a"]), c (.sym "pair") [i 1, i 2]]) = true ∧
+    VM.layoutOK (c (.sym "call1") [.sym "first", c (.sym "pair") [i 1, i 2]]) = true := ⟨rfl, rfl, rfl, rfl, rfl⟩
 
 /-- `({-> b})` ↦ `b`: evaluating the nullary call with one more unit of fuel is evaluating the body -/
 theorem beta0_step (fuel : Nat) (env : Env) (b : Expr) (p : Bool) :
